@@ -210,6 +210,8 @@ struct Explorer<'a> {
     nodes_visited: u64,
     feeds: u64,
     capped: bool,
+    /// false: no reference LR(1) driver (the grammar is not LR(1)); Earley stands in where it can
+    use_ref: bool,
 }
 
 fn word_json(case: &Case, w: &[u8]) -> Value {
@@ -244,11 +246,17 @@ impl<'a> Explorer<'a> {
         let at = self.word.len();
         // ---- end of input here
         let in_language = earley.as_ref().map(|e| e.accepts()).unwrap_or(false);
-        let ref_end = rcfg.as_ref().map(|r| {
+        let mut ref_end = rcfg.as_ref().map(|r| {
             let mut r = r.clone();
             ref_feed(&self.case.g, &self.rf.lr1_tables, &mut r, t)
         });
-        if let Some(re) = &ref_end {
+        if !self.use_ref && self.all_productive && earley.is_some() {
+            // Earley as the reference: a viable prefix that is no sentence stops at end of input
+            ref_end = Some(if in_language { Step::Accepted } else { Step::Error });
+        }
+        if !self.use_ref {
+            // no LR(1) driver to cross-check
+        } else if let Some(re) = &ref_end {
             // reference self-check: LR(1) driver vs Earley
             if (*re == Step::Accepted) != in_language {
                 self.acc.self_check_errors.push(format!("reference self-check: LR(1) driver and Earley disagree on membership of {:?} in {:?}", self.word, self.case.g));
@@ -311,7 +319,7 @@ impl<'a> Explorer<'a> {
                 m_step = Some(st);
             }
             let mut r_next = None;
-            let mut r_step = None;
+            let mut r_step: Option<Step> = None;
             if let Some(r) = &rcfg {
                 let mut r2 = r.clone();
                 let st = ref_feed(&self.case.g, &self.rf.lr1_tables, &mut r2, a);
@@ -324,7 +332,11 @@ impl<'a> Explorer<'a> {
                 Some(e) => e.push(a),
                 None => false,
             };
-            if self.all_productive {
+            if !self.use_ref && self.all_productive && (earley.is_some() || viable) {
+                // Earley as the reference (all nonterminals productive: viable = extendable to a sentence)
+                r_step = Some(if viable { Step::Shifted } else { Step::Error });
+            }
+            if self.use_ref && self.all_productive {
                 if let Some(rs) = &r_step {
                     if (*rs == Step::Shifted) != viable {
                         self.acc.self_check_errors.push(format!("reference self-check: LR(1) driver and Earley disagree on viability of {:?}+{a} in {:?}", self.word, self.case.g));
@@ -367,9 +379,15 @@ pub fn model_case(case: &Case, gen: &Gen, rf: &Reference, property: &str, acc: &
         acc.inc("skipped: not accepted by generate");
         return;
     };
-    if rf.lr1_tables.has_conflict() {
-        acc.inc("skipped: accepted although not LR(1) (reported by C04)");
-        return;
+    // A grammar that generate accepted although it is not LR(1) (C04 reports that) has no reference LR(1)
+    // driver; membership (Earley) is still defined, and so is viability when all nonterminals are productive.
+    let use_ref = !rf.lr1_tables.has_conflict();
+    if !use_ref {
+        acc.inc("accepted although not LR(1): judged by Earley alone");
+        if property == "C03" && !rf.all_productive {
+            acc.inc("skipped for C03: not LR(1) and with unproductive nonterminals (no reference index)");
+            return;
+        }
     }
     let b = match bind(case, text) {
         Ok(b) => b,
@@ -396,9 +414,9 @@ pub fn model_case(case: &Case, gen: &Gen, rf: &Reference, property: &str, acc: &
     let start_nt = 0u8;
     let model = Model { case, b: &b, start_nt };
     let init = model.initial();
-    let mut ex = Explorer { case, model, rf, all_productive: rf.all_productive, depth, property, acc, word: vec![], reported: false, nodes_visited: 0, feeds: 0, capped: false };
+    let mut ex = Explorer { case, model, rf, all_productive: rf.all_productive, depth, property, acc, word: vec![], reported: false, nodes_visited: 0, feeds: 0, capped: false, use_ref };
     let mut earley = Some(Earley::new(&a));
-    ex.dfs(Some(init), Some(RefCfg { states: vec![rf.lr1_tables.start] }), &mut earley);
+    ex.dfs(Some(init), if use_ref { Some(RefCfg { states: vec![rf.lr1_tables.start] }) } else { None }, &mut earley);
     let (n, f) = (ex.nodes_visited, ex.feeds);
     if ex.capped {
         acc.inc("grammars whose trie was cut by the feed budget (deeper words not explored)");
